@@ -20,6 +20,8 @@ pub enum Ty {
     /// struct / union / exception by name
     Struct(&'static str),
     Enum(&'static str),
+    /// typedef: (name, underlying type)
+    Alias(&'static str, Box<Ty>),
 }
 
 #[derive(Clone, Copy, Debug, PartialEq)]
@@ -69,6 +71,7 @@ pub struct Method {
 
 #[derive(Clone, Debug, Default)]
 pub struct Corpus {
+    pub typedefs: Vec<(&'static str, Ty, &'static str)>,
     pub enums: Vec<EnumDef>,
     pub structs: Vec<StructDef>,
     pub service: Vec<Method>,
@@ -85,6 +88,9 @@ fn m(k: Ty, v: Ty) -> Ty {
 }
 fn st(n: &'static str) -> Ty {
     Ty::Struct(n)
+}
+fn al(n: &'static str, t: Ty) -> Ty {
+    Ty::Alias(n, Box::new(t))
 }
 
 struct FB {
@@ -119,6 +125,14 @@ pub fn corpus() -> Corpus {
     use Ty::*;
     let mut c = Corpus::default();
     c.enums.push(EnumDef { name: "Color", variants: vec![("RED", 0), ("GREEN", 1), ("BLUE", 7)] });
+    c.typedefs = vec![
+        ("Ts", I64, ""),
+        ("Name", String, ""),
+        ("LeafList", l(st("Leaf")), ""),
+        ("LeafMap", m(String, st("Leaf")), r#"(pilota.rust_type = "btree")"#),
+        ("Matrix", l(l(l(I32))), ""),
+        ("LeafAlias", st("Leaf"), ""),
+    ];
 
     let sd = |name, kind, fields| StructDef { name, kind, fields };
 
@@ -199,6 +213,13 @@ pub fn corpus() -> Corpus {
             .f(19, m(Enum("Color"), I64), Optional)
             .f(20, s(st("Leaf")), Optional)
             .f(21, m(I8, Double), Optional)
+            .f(22, s(Double), Optional)
+            .f(23, m(Double, String), Optional)
+            .f(24, m(Binary, I32), Optional)
+            .f(25, m(st("Leaf"), I32), Optional)
+            .f(26, l(l(l(I32))), Optional)
+            .f(27, m(String, s(st("Leaf"))), Optional)
+            .f(28, l(Bool), Required)
             .done(),
     ));
     c.structs.push(sd(
@@ -227,6 +248,26 @@ pub fn corpus() -> Corpus {
             .f(5, l(I64), Default)
             .f(6, Bool, Default)
             .f(7, Uuid, Default)
+            .f(8, l(Bool), Default)
+            .f(9, m(String, st("Leaf")), Default)
+            .f(10, s(I32), Default)
+            .f(11, Double, Default)
+            .f(12, Enum("Color"), Default)
+            .f(300, I64, Default)
+            .done(),
+    ));
+    c.structs.push(sd(
+        "Typed",
+        Kind::Struct,
+        FB::new()
+            .f(1, al("Ts", I64), Required)
+            .f(2, al("Name", String), Optional)
+            .f(3, al("LeafList", l(st("Leaf"))), Optional)
+            .f(4, al("LeafMap", m(String, st("Leaf"))), Optional)
+            .f(5, al("Matrix", l(l(l(I32)))), Optional)
+            .f(6, al("LeafAlias", st("Leaf")), Optional)
+            .f(7, l(al("Ts", I64)), Optional)
+            .f(8, m(al("Name", String), al("LeafAlias", st("Leaf"))), Optional)
             .done(),
     ));
     c.structs.push(sd("Nothing", Kind::Union, vec![]));
@@ -272,6 +313,7 @@ pub fn corpus() -> Corpus {
             .f(255, st("Unit"), Optional)
             .f(256, Uuid, Optional)
             .f(1000, l(st("Choice")), Optional)
+            .f(1001, st("Typed"), Optional)
             .done(),
     ));
 
@@ -304,6 +346,7 @@ fn ty_text(t: &Ty) -> String {
         Ty::Set(e) => format!("set<{}>", ty_text(e)),
         Ty::Map(k, v) => format!("map<{}, {}>", ty_text(k), ty_text(v)),
         Ty::Struct(n) | Ty::Enum(n) => n.to_string(),
+        Ty::Alias(n, _) => n.to_string(),
     }
 }
 
@@ -331,6 +374,10 @@ pub fn print_thrift(c: &Corpus) -> String {
         }
         o.push_str("}\n\n");
     }
+    for (n, t, ann) in &c.typedefs {
+        o.push_str(&format!("typedef {} {}{}\n", ty_text(t), n, ann));
+    }
+    o.push('\n');
     for s in &c.structs {
         let kw = match s.kind {
             Kind::Struct => "struct",
